@@ -24,6 +24,8 @@ holding the same page id, is a violation (res.oracle_failures).  Violations carr
                        list lies at or above the point the allocator restarts from
   F-ALLOC-LOG-RACE     an allocation overtook the log half of a deallocation (model: pa_client_ok = false; only in
                        histories that emulate two threads, see `races`)
+Two probes outside the model correspondence: run_db_probe (the beyond-file witness through SQL on a whole database) and
+run_thread_probe (the log race with real goroutines).
 Not observable: DiskManagerImpl.nextPageID (read through probes and through every NewPage answered while the
 reusable list is empty).
 """
@@ -526,6 +528,77 @@ def run_corr(res, rng, nhist, variant="", avoid=None, races=None):
             k[a] = k.get(a, 0) + b
 
 
+def _session(cmds, timeout=120.0):
+    """one harness session; returns (transcript, answers as dicts) or (transcript, None) if the harness died"""
+    os.makedirs(os.path.join(BUILD, "tmp"), exist_ok=True)
+    d = tempfile.mkdtemp(prefix="pagealloc_p_", dir=os.path.join(BUILD, "tmp"))
+    eng = Proc([HARNESS, "pagealloc", "-", d])
+    log, out = [], []
+    try:
+        for c in cmds:
+            log.append("E> " + c)
+            r = eng.ask(c, timeout)
+            log.append("E< " + str(r)[:2000])
+            if r is None:
+                return "\n".join(log) + "\n", None
+            out.append(kvs(r))
+        return "\n".join(log) + "\n", out
+    finally:
+        eng.kill()
+        shutil.rmtree(d, ignore_errors=True)
+
+
+def run_db_probe(res):
+    """The witness of restart_reuse_beyond_file_refuted through the real callers, on a whole database
+    (samehada.NewSamehadaDB): two hash joins (one temporary page, allocated above every page that was written,
+    given back by DeallocatePage(id,true)), clean Shutdown, reopen.  The start-up rebuilds the skip list indexes
+    with NewPage: the oracle is "no two frames of the pool hold the same page id"."""
+    cmds = ["dbinit a 400", "sql CREATE TABLE t1 (a INT, b INT);", "sql CREATE TABLE t2 (c INT, d INT);",
+            "sql INSERT INTO t1 (a, b) VALUES (1, 10);", "sql INSERT INTO t1 (a, b) VALUES (2, 20);",
+            "sql INSERT INTO t2 (c, d) VALUES (1, 100);", "sql INSERT INTO t2 (c, d) VALUES (2, 200);",
+            "sql SELECT t1.a, t2.d FROM t1 JOIN t2 ON t1.a = t2.c;",
+            "sql SELECT t1.a, t2.d FROM t1 JOIN t2 ON t1.a = t2.c;", "close", "dbopen a 400"]
+    t, out = _session(cmds)
+    x = res.extra.setdefault("page_alloc_histories", {})
+    x["db_probe"] = "harness died" if out is None else "ran"
+    res.note_case("pagealloc-db-probe", True)
+    if out is None:
+        res.broken.append("page allocation: the whole-database probe did not finish")
+        return
+    rs = ilist(out[-1].get("resident"))
+    dup = sorted(p for p in set(rs) if rs.count(p) > 1)
+    x["db_probe_duplicate_ids"] = dup
+    if dup:
+        res.oracle_failures.append((
+            "# page-id allocation, whole database (lib/alloccorr.py run_db_probe): commands to `verifharness pagealloc`\n" + t,
+            "page id handed out while in use: F-ALLOC-BEYOND-FILE: after a clean shutdown and reopen two frames of the "
+            "pool hold page id %s (npages0=%s, allocation records in the log: %s)" % (dup, out[-1].get("npages0"), out[-1].get("log"))))
+
+
+def run_thread_probe(res, goroutines=8, iters=1500, keep=7):
+    """Real threads: goroutines loop NewPage / UnpinPage(dirty) / DeallocatePage(id,true) and keep every keep-th page;
+    crash; restart.  Oracle: no id of the rebuilt reusable list is one a goroutine kept (takes ~20 s: every reuse
+    and every deallocation syncs the log file)."""
+    t, out = _session(["init r 64", "racestress %d %d %d" % (goroutines, iters, keep), "staleowned", "crash",
+                       "open r 64", "staleowned"], timeout=600.0)
+    x = res.extra.setdefault("page_alloc_histories", {})
+    res.note_case("pagealloc-thread-probe", True)
+    if out is None:
+        res.broken.append("page allocation: the thread probe did not finish")
+        return
+    x["thread_probe_log_order_violations"] = int(out[1].get("violations", "0"))
+    stale = ilist(out[-1].get("stale"))
+    x["thread_probe_stale_owned_ids"] = len(stale)
+    if ilist(out[2].get("stale")):
+        res.oracle_failures.append((t[:6000], "page id handed out while in use: UNEXPLAINED: the in-memory reusable list holds an id a thread owns: %s" % out[2].get("stale")))
+    if stale:
+        res.oracle_failures.append((
+            "# page-id allocation, real threads (lib/alloccorr.py run_thread_probe)\n" + t[:6000],
+            "page id handed out while in use: F-ALLOC-LOG-RACE: after a crash restart the rebuilt reusable list holds "
+            "ids that threads still own: %s (REUSE_PAGE / DEALLOCATE_PAGE records out of order %s times in the log)"
+            % (stale, out[1].get("violations"))))
+
+
 if __name__ == "__main__":
     import argparse, json
     ap = argparse.ArgumentParser()
@@ -535,9 +608,15 @@ if __name__ == "__main__":
     ap.add_argument("--races", action="store_true")
     ap.add_argument("--variant", default="", help="'fixed': run the MODEL of the repaired start-up (mismatches expected on the unrepaired engine)")
     ap.add_argument("--show", type=int, default=1)
+    ap.add_argument("--db-probe", action="store_true", help="also the whole-database witness (hash join, clean restart)")
+    ap.add_argument("--thread-probe", action="store_true", help="also the real-thread probe (~20 s)")
     a = ap.parse_args()
     res = Result("ALLOCCORR", "cli", a.seed)
     run_corr(res, random.Random(a.seed), a.n, a.variant, None if a.avoid is None else a.avoid.split(","), a.races or None)
+    if a.db_probe:
+        run_db_probe(res)
+    if a.thread_probe:
+        run_thread_probe(res)
     print(json.dumps(res.extra, indent=1, sort_keys=True))
     print("evaluations=%d nontrivial=%d mismatches=%d oracle_failures=%d broken=%s" % (
         res.evaluations, len(res.nontrivial), len(res.mismatches), len(res.oracle_failures), res.broken))
